@@ -255,5 +255,8 @@ func oracleFile(prop string) string {
 	case "C01", "C02", "C03", "C12", "C07", "C06", "C17":
 		return "handler.go.txt"
 	}
+	if prop == "C16" {
+		return "rtcmlogger.go.txt"
+	}
 	return prop + ".go.txt"
 }
